@@ -44,11 +44,13 @@ FourierCheck ==
           \cup (IF samePeriod
                 THEN Fails(\A j \in 1..m : Close(R.y[j], Poly(FMul(FInt(j - 1), R.ndt)), FMul(FStr("1e-9"), FAdd(amp, FStr("1e-300")))), "FourierExact")
                 ELSE \* the returned record covers another span than the input: a periodic signal cannot be reproduced at the labelled
-                     \* instants.  That is admissible only if the count had to be trimmed: when no even count is requested and the
-                     \* record is a whole number of new steps long, the whole period must be covered.
+                     \* instants.  That is admissible only if the count had to be trimmed: when the record is a whole number of new
+                     \* steps long, the whole period must be covered
                      LET q == FDiv(FMul(FInt(R.n), R.dt), R.ndt)
                          whole == Close(q, FInt(FRound(q)), FStr("1e-9")) /\ ~FLt(R.ndt, Zero) /\ FGt(R.ndt, Zero)
-                     IN Fails(R.even \/ ~whole, "FourierExact"))
+                     \* (an even count is requested and the whole-period count is odd: one sample has to go; if it is even already,
+                     \* nothing forces trimming and the whole period must be covered as well)
+                     IN Fails(~whole \/ (R.even /\ FRound(q) % 2 = 1), "FourierExact"))
 
 Step == l = 0 /\ l' = 1 /\ tid' = tid /\ bad' = (IF R.kind = "interp" THEN InterpCheck ELSE FourierCheck)
 Finish == l = 1 /\ l' = -1 /\ UNCHANGED <<tid, bad>>
